@@ -255,6 +255,22 @@ def run_replay_file(mod, path):
 
 
 def main(argv):
+  """Entry point; everything the run writes to a temp dir goes under one private directory that is
+  removed on exit (generated modules, malt's generated files, worker scratch)."""
+  import shutil
+  base = tempfile.mkdtemp(prefix='vf_run_')
+  os.environ['TMPDIR'] = base
+  tempfile.tempdir = base
+  try:
+    return _main(argv)
+  finally:
+    tempfile.tempdir = None
+    shutil.rmtree(base, ignore_errors=True)
+
+
+def _main(argv):
+  import logging
+  logging.getLogger().setLevel(logging.ERROR)   # malt's fallback warnings during shrinking are noise here
   if not argv:
     print('usage: check <ID> [quick|thorough] [--replay path]')
     return 2
